@@ -66,6 +66,10 @@ def run(v, tier, seed, replay):
     if need - kinds:
         raise Infra("vacuity: event kinds never recorded: %s" % sorted(need - kinds))
     v.cov["protocol_events_validated"] = nev
+    # ---- the repository's example programs as trace sources (hooks only, sources untouched)
+    ex_names = ["RabiOscilations", "VacuumNeutrinoOscillations"] if tier == "quick" else ["RabiOscilations", "VacuumNeutrinoOscillations", "CollectiveNeutrinoOscillations"]
+    ntr_ex, nev_ex = solver.example_traces(v, ex_names, 2500 if tier == "quick" else 20000)
+    ntr += ntr_ex; nev += nev_ex
     # ---- step-size controls (part of "change stepper/tolerances"): module StepCtl explored by TLC, every history replayed
     rs = vlib.tlc("StepCtl", "StepCtl.cfg", timeout=600, coverage=False)
     vlib.tlc_ok(rs, "StepCtl")
